@@ -77,6 +77,7 @@ structure NI (W : Colls) (types : Types) (S : Nat → Prop) (s : AggState) : Pro
   ik : ∀ i i', alGet s.agg.remapped (GTy.mk' types (.interface i)) = some (.interface i') →
     ¬ S i' ∧ i' < s.agg.types.interfaces.length ∧
       ∀ t, HasTree types (.instance i) t → HasTree s.agg.types (.instance i') t
+  ish : ∀ i ty, alGet s.agg.remapped (GTy.mk' types (.interface i)) = some ty → ∃ i', ty = .interface i'
 
 /-- the copy `k'` is frozen and unfolds to whatever `k` unfolds to -/
 def PostNK (types : Types) (S : Nat → Prop) (s' : AggState) (k k' : ItemKind) : Prop :=
@@ -98,7 +99,14 @@ omit hs in
 /-- a leaf remap keeps the nested invariant -/
 theorem ni_of_step {s s' : AggState} (hI : NI W types S s) (hr : RInv W s') (hst : Step types.uid s s') :
     NI W types S s' := by
-  refine ⟨⟨hr, by rw [hst.chk]; exact hI.ainv.cinv.ext hst.ext, hst.ext.resources.trans hI.ainv.nores⟩, ?_, ?_, ?_⟩
+  have hish : ∀ i ty, alGet s'.agg.remapped (GTy.mk' types (.interface i)) = some ty → ∃ i', ty = .interface i' := by
+    intro i ty hg
+    have hg' : alGet s.agg.remapped (GTy.mk' types (.interface i)) = some ty := by
+      have := hst.ikeys (GTy.mk' types (.interface i)).uid i
+      simp only [GTy.mk'] at this hg ⊢
+      rw [← this]; exact hg
+    exact hI.ish i ty hg'
+  refine ⟨⟨hr, by rw [hst.chk]; exact hI.ainv.cinv.ext hst.ext, hst.ext.resources.trans hI.ainv.nores⟩, ?_, ?_, ?_, hish⟩
   · intro j itf hj x hx
     rw [hst.ifaces] at hj
     have := hI.iwf j itf hj x hx
@@ -245,7 +253,14 @@ theorem ifaceSpec_succ (f : Nat) (hk : KindSpec W types S f) : IfaceSpec W types
               · exact hq.2.1
               · exact ih x hx
           exact this hall' x hx
-        refine ⟨⟨?_, ?_, ?_, ?_⟩, hst2.trans hstep3, ⟨?_, ?_⟩, fun _ => ⟨by simp, ?_⟩⟩
+        have hish : ∀ i ty, alGet (alInsert s2.agg.remapped (GTy.mk' types (.interface id))
+            (.interface s2.agg.types.interfaces.length)) (GTy.mk' types (.interface i)) = some ty → ∃ i', ty = .interface i' := by
+          intro i ty hg0
+          simp only [alGet_alInsert] at hg0
+          split at hg0
+          · cases hg0; exact ⟨_, rfl⟩
+          · exact hI2.ish i ty hg0
+        refine ⟨⟨?_, ?_, ?_, ?_, hish⟩, hst2.trans hstep3, ⟨?_, ?_⟩, fun _ => ⟨by simp, ?_⟩⟩
         · -- AInv
           refine ⟨⟨?_, hI2.ainv.rinv.closed.same_defined hext3 rfl,
             hI2.ainv.rinv.shape.insert _ _ (fun d hd => by simp [GTy.mk'] at hd) (fun f hf => by simp [GTy.mk'] at hf)⟩,
